@@ -120,6 +120,11 @@ def model(h: list) -> list:
     for op in h:
         k, s = op[0], op[1]
         state = st.get(s, '-') if k != 'sleep' else '-'
+        if k == 'sleep' and (not alive or sure_err):
+            # a sleep is local to the client: it succeeds whatever the state
+            # of the connection, and leaves a pending error pending
+            out.append((op, state, {'ok'}))
+            continue
         if not alive:
             out.append((op, state, {'dead'}))
             continue
